@@ -139,7 +139,8 @@ def run_property(prop, tier, seed, prop_files, coq_targets, profile, monitor, n_
             elif x_bad:
                 res.violation("stress", {"property": prop, "what": "monitor false on a concurrent run of the real code",
                                          "observed": x_bad[:3], "seed": seed, "tier": tier,
-                                         "replay": "go test -run TestVerifC05Race (harness/c05_race_test.go), real scheduler"})
+                                         "replay": (x_bad[0].get("replay_note") if isinstance(x_bad[0], dict) and x_bad[0].get("replay_note")
+                                                    else "go test -run TestVerifC05Race (harness/c05_race_test.go), real scheduler")})
                 return res.finish()
         mon_fail = [i for i, r in enumerate(results) if r and not r[1]]
         disagree = [i for i, r in enumerate(results) if r and r[0] and r[1]]
